@@ -26,7 +26,7 @@ Definition exn_code (e : exn) : N :=
   match e with
   | ValueError => 1 | IndexError => 2 | KeyError => 3 | AssertionError => 4
   | UnicodeDecodeError => 5 | StructError => 6 | TypeError => 7
-  | HttpProtocolException k => 100 + k | OSError k => 200 + k | OutOfFuel => 99
+  | HttpProtocolException _ => 100 | OSError _ => 200 | OutOfFuel => 99
   end.
 
 Fixpoint bytes_of_string (s : string) : bytes :=
